@@ -136,6 +136,9 @@ def gen_case(rng, tier, i=None):
             # the budget `tally up` runs on has the supplemental `orders` source the rules query; in a third of the cases it cannot be
             # loaded (absent, empty, unreadable): then every rule that reads it is one more rule that cannot be evaluated
             'orders_source': rng.choice(['ok', 'ok', 'ok', 'ok', 'absent', 'empty', 'EACCES', 'header-only']),
+            # nobody reads stderr (closed terminal, `2>&1 | head`, full disk behind 2>log): every write to it fails - a failing rule is
+            # still just a failing rule
+            'stderr_broken': rng.random() < 0.15,
             # the day the command runs (relative-date rules read the calendar; both leap days are days like any other)
             'today': rng.choice(['2025-06-15', '2025-06-15', '2025-12-31', '2026-01-01', '2024-02-29', '2028-02-29', '2025-02-28']),
             # now and then the statement is long: the items repeated under fresh row ids (what a failed evaluation leaves behind
@@ -451,7 +454,16 @@ def execute(case, scratch):
     fam = case['family']
 
     def run(fn, faults=None):
-        r = proc.run_func(world, fn, {'net': 'down', 'eval_faults': faults or None, 'today': case.get('today', '2025-06-15')}, ctl_parent=ctlp)
+        plan_ = {'net': 'down', 'eval_faults': faults or None, 'today': case.get('today', '2025-06-15')}
+        if case.get('stderr_broken'):
+            plan_['stdout_fault'] = {'after_effect': -1, 'stream': 'stderr'}
+        def guarded(fn=fn):
+            # the outcome is taken from the call itself, not from what the process manages to say on stderr
+            try:
+                return fn()
+            except Exception as e:
+                return {'__raised__': '%s: %s' % (type(e).__name__, str(e)[:260])}
+        r = proc.run_func(world, guarded, plan_, ctl_parent=ctlp)
         count['evaluations'] += 1
         fired = sum(1 for e in r.events if e.get('k') == 'evalfault')
         if fired:
@@ -607,6 +619,8 @@ def execute(case, scratch):
                 broot = os.path.join(scratch, 'b')
                 bfiles = {'config/settings.yaml': settings, rules_rel: text, 'data/stmt.csv': '\n'.join(lines) + '\n'}
                 cplan = {'net': 'down', 'eval_faults': faults or None, 'today': case.get('today', '2025-06-15')}
+                if case.get('stderr_broken'):
+                    cplan['stdout_fault'] = {'after_effect': -1, 'stream': 'stderr'}
                 if osrc in ('ok', 'EACCES'):
                     bfiles['data/orders.csv'] = 'Date,Description,Amount\n' + ''.join('2025-01-0%d,%s,%s\n' % (k_ + 1, o_['item'], o_['amount'])
                                                                                       for k_, o_ in enumerate(ROWS['orders']))
